@@ -48,6 +48,9 @@ def _expand_branch(mol_graph, current, anchor, recipe):
         for _ in range(0, n_mon):
             mol_graph.add_node(current, **attributes)
             mol_graph.add_edge(prev_node, current, order=order)
+            # only the first copy of an expanded node has the
+            # annotated bond order to the previous node
+            order = 1
 
             prev_node = current
             current += 1
